@@ -5,7 +5,7 @@ from ..core import core_oracle
 
 PROP = 'C02'
 LEVEL = 'exploration'
-BUDGET = {'quick': 3200, 'thorough': 64000}
+BUDGET = {'quick': 9600, 'thorough': 128000}
 RULE = ('cases = well-formed chart (DESIGN.md 2, <=12 states, targets biased to states nested in '
         'orthogonal regions and to history states) + history of 8-25 queue/advance/step ops with a '
         'fresh guard valuation per step; legality of the configuration is checked after every '
